@@ -22,7 +22,11 @@ func (r *rwRT) ruleFilePasses() {
 	in := r.interp(rwConfig{root: fn, boundaries: map[string]bool{"rewriteFile": false, "attachComment": true, "rewriteForRanges": true, "rewriteIter": true, "mkYieldFromRewriter": true, "mkYieldRewriter": true, "collectYieldFunc": true}})
 	in.MaxDepth = 10
 	// only the closures of rewriteFile itself are followed; every named function it calls is a step
-	in.Inline = func(f *ssa.Function) bool { return inRw(f) && f.Parent() != nil && outermost(f) == fn }
+	passNames := map[string]bool{"attachComment": true, "rewriteForRanges": true, "rewriteIter": true, "mkYieldFromRewriter": true, "mkYieldRewriter": true, "collectYieldFunc": true}
+	in.Inline = func(f *ssa.Function) bool {
+		// helpers that rewriteFile is split into are followed; the passes themselves, and anything that performs the generator pass, are steps
+		return inRw(f) && !passNames[f.Name()] && f.Name() != "rewriteYieldFunc" && !reachesFn(f, "rewriteYieldFunc", 4)
+	}
 	outs := in.Run(nil, fn, []AV{Sym{Name: "r", NN: true}, Sym{Name: "f", NN: true}, Sym{Name: "printer", NN: true}}, nil)
 	r.account(in)
 	// every path: sequence of astutil.Apply calls identified by the callback wrapped
